@@ -16,6 +16,7 @@ pub mod c09;
 pub mod c10;
 pub mod c11;
 pub mod c12;
+pub mod c13;
 pub mod c14;
 pub mod c15;
 pub mod c16;
@@ -64,7 +65,8 @@ pub fn dispatch(prop: &str, ctx: Ctx, replay: Option<&str>) -> i32 {
         }
         "C12" => {
             crate::run::start_watchdog(std::time::Duration::from_secs(240), None);
-            let rep = c12::run_pool_level(ctx);
+            let mut rep = c12::run_pool_level(ctx);
+            rep.merge(c13::run_c12_client_level(ctx));
             finish(rep, c12::meta(), ctx.tier, ctx.seed, started)
         }
         "C06" => {
@@ -121,6 +123,11 @@ pub fn dispatch(prop: &str, ctx: Ctx, replay: Option<&str>) -> i32 {
             crate::run::start_watchdog(std::time::Duration::from_secs(900), None);
             let rep = c08::run(ctx);
             finish(rep, c08::meta(), ctx.tier, ctx.seed, started)
+        }
+        "C13" => {
+            crate::run::start_watchdog(std::time::Duration::from_secs(900), None);
+            let rep = c13::run(ctx);
+            finish(rep, c13::meta(), ctx.tier, ctx.seed, started)
         }
         "C03" => {
             let mut rep = Report::new("C03");
